@@ -176,13 +176,16 @@ def kernel_table(rep, F, rule='R-TABLE'):
             if nf.startswith("('panic'"):
                 continue
             strs = [(TB.show(TB.strip_refs(a[0])), not (a[1] == ('eq', 0))) for a in atoms]
+            # `a != b` false is `a == b` true
+            strs = [('Eq' + st[2:], not tv) if st.startswith('Ne(') else (st, tv) for st, tv in strs]
             known = {'is_zero(arg2)', 'is_zero(arg1)', 'is_one(arg2)', 'Eq(arg1.int_val,arg2.int_val)', 'Eq(arg2.int_val,arg1.int_val)'}
             extra = [st for st, tv in strs if st not in known]
             if nf in ('arg1', 'clone(arg1)'):
                 if not any(st in ('is_zero(arg1)', 'is_one(arg2)') and tv for st, tv in strs):
                     probs.append('the numerator is returned unchanged on a path that established neither x == 0 nor y == 1')
                 continue
-            m1 = re.match(r'^BigDecimal::BigDecimal\((?:into|from)\((-?\d+)\),(.*)\)$', nf) or re.match(r'^(?:new|from_bigint)\((?:into|from)\((-?\d+)\),(.*)\)$', nf)
+            nf1 = re.sub(r'\bone\(\)', 'from(1)', nf)
+            m1 = re.match(r'^BigDecimal::BigDecimal\((?:into|from)\((-?\d+)\),(.*)\)$', nf1) or re.match(r'^(?:new|from_bigint)\((?:into|from)\((-?\d+)\),(.*)\)$', nf1)
             if m1:
                 eq = [st for st, tv in strs if st.startswith('Eq(') and tv]
                 if m1.group(1) != '1' or m1.group(2) != 'Sub(arg1.scale,arg2.scale)':
